@@ -100,14 +100,20 @@ theorem encoderOk (b : ByteWorld) (cfg : SessionCfg)
   have hp : padLen (b.errText hdr rsn).length < 8 := by unfold padLen; omega
   omega
 
-/-- the texts `_handle_message_loop` uses (session.py l.176-258), by reason; a request rejected by the engine as a
-whole carries `str(e)` instead (`rejected_bytes`) -/
+/-- the texts `_handle_message_loop` uses (session.py l.176-258), by reason, for a connection whose client
+certificate passes the certificate stage; a request rejected by the engine as a whole carries `str(e)` instead
+(`rejected_bytes`).  Two texts are NOT functions of (header version, reason) alone and were wrong here until the
+end-to-end byte comparison M17 (round 8) showed it: Authentication Not Successful says "Error verifying the client
+certificate. …" when the CERTIFICATE stage fails (a property of the connection: `Drivers/Server.lean`
+`sessionTextOf certStageFails` is the table the byte comparison uses), and the only General Failure the composed model
+can send is the one for a response that cannot be written ("… while encoding the response …"; the engine model never
+raises anything but a KMIP error out of `process_request`). -/
 def sessionText (_hdr : Ver) (rsn : Nat) : TTLV.Bytes :=
   bytesOf (if rsn = SRsn.responseTooLarge then "Response message length too large. See server logs for more information."
     else if rsn = SRsn.invalidMessage then "Error parsing request message. See server logs for more information."
     else if rsn = SRsn.authenticationNotSuccessful then
       "An error occurred during client authentication. See server logs for more information."
-    else "An unexpected error occurred while processing request. See server logs for more information.")
+    else "An unexpected error occurred while encoding the response. See server logs for more information.")
 
 /-- non-vacuity of `encoderOk`'s hypothesis: the session's own texts under the default configuration -/
 example (hdr : Ver) (rsn : Nat) : (sessionText hdr rsn).length + 144 ≤ 1048576 := by
